@@ -419,6 +419,29 @@ Section DECODE.
     run fp enc_len CS cache_add threshold ctx_ttl (empty_chunk, cache0) (calls_of flush_limit b).
 End DECODE.
 
+(* A long-lived process decodes one body after another. The only thing a request hands over to the next is the
+   state of the series-announcement cache (after a panic the cache keeps what it was told before the panic; the
+   model keeps the state at the start of the request, the theorems hold for every state). *)
+Section HISTORY.
+  Variable fp : labels -> N.
+  Variable enc_len : labels -> Z.
+  Variable CS : Type.
+  Variable cache_add : CS -> Z -> N -> N -> CS * bool.
+  Variable threshold : Z.
+  Variable flush_limit : N.
+  Definition decode_st (cache0 : CS) (ctx_ttl : N) (b : body) : result * CS :=
+    match steps fp enc_len CS cache_add threshold ctx_ttl (empty_chunk, cache0) (calls_of flush_limit b) with
+    | (o, Some st) => (Done (o ++ [fst st]), snd st)
+    | (o, None) => (Panicked o, cache0)
+    end.
+  (* requests = (X-Ttl-Days, body) *)
+  Fixpoint decode_history (cache0 : CS) (reqs : list (N * body)) : list result :=
+    match reqs with
+    | [] => []
+    | (ttl, b) :: r => let '(res, c1) := decode_st cache0 ttl b in res :: decode_history c1 r
+    end.
+End HISTORY.
+
 (* ---------------------------------------------------------------- specification: one row per submitted entry *)
 Record row := R { r_fp : N; r_ts : Z; r_msg : string; r_val : N; r_ttl : N; r_type : N }.
 
@@ -535,7 +558,7 @@ Fixpoint smp (l : list int) : list (Z * N) :=
 
 Inductive errkind := ENone | EPanic | EError.
 Record ftrow := FT { ft_labels : labels; ft_fp : N; ft_enclen : Z }.
-Inductive cachekind := CMiss | CSet.
+Inductive cachekind := CMiss | CSet | CShared.
 Record case := Case { c_id : Z; c_body : body; c_ctx_ttl : N; c_cache : cachekind; c_tab : list ftrow; c_obs : list chunk; c_err : errkind }.
 
 Definition kv_eqb (a b : string * string) : bool := String.eqb (fst a) (fst b) && String.eqb (snd a) (snd b).
@@ -581,6 +604,8 @@ Definition model_result (c : case) : result :=
   match c_cache c with
   | CMiss => decode (tab_fp (c_tab c)) (tab_enclen (c_tab c)) unit miss_cache tt THRESHOLD FLUSH_LIMIT (c_ctx_ttl c) (c_body c)
   | CSet => decode (tab_fp (c_tab c)) (tab_enclen (c_tab c)) (list (Z * N * N)) set_cache [] THRESHOLD FLUSH_LIMIT (c_ctx_ttl c) (c_body c)
+  (* a step of a history with one cache shared by all steps: its state is not part of the case, only the rows are compared *)
+  | CShared => decode (tab_fp (c_tab c)) (tab_enclen (c_tab c)) unit miss_cache tt THRESHOLD FLUSH_LIMIT (c_ctx_ttl c) (c_body c)
   end.
 
 (* Influx: the fields of one line are visited in Go map order, so the rows of one line are compared as a
@@ -599,6 +624,8 @@ Definition model_groups (b : body) : list nat :=
 Definition spec_groups (b : body) : list nat :=
   match b with BInflux p l => map (fun ln => List.length (influx_line_entries p ln)) l | _ => [] end.
 
+Definition rows_only (c : case) : bool := match c_cache c with CShared => true | _ => is_influx (c_body c) end.
+
 (* model output <> observed output *)
 Definition model_mismatch (c : case) : bool :=
   body_modelled (c_body c) &&
@@ -607,6 +634,7 @@ Definition model_mismatch (c : case) : bool :=
           if is_influx (c_body c)
           then Nat.eqb (List.length cs) (List.length (c_obs c)) &&
                grouped_perm_eqb (model_groups (c_body c)) (rows_of cs) (rows_of (c_obs c))
+          else if rows_only c then list_eqb row_eqb (rows_of cs) (rows_of (c_obs c))
           else list_eqb chunk_eqb cs (c_obs c)
         | Panicked cs, EPanic => list_eqb chunk_eqb cs (c_obs c)
         | _, _ => false
